@@ -220,16 +220,18 @@ def _is_resumption(frame: FrameType) -> bool:
 
     On Python 3.11+ the frame then stands at a RESUME instruction with a
     non-zero argument; a frame entered for the first time stands at RESUME 0.
+    When an exception is thrown into a suspended generator (throw(), close())
+    the frame still stands at the YIELD_VALUE it was suspended at.
     """
     if RESUME_OPCODE is None:
         return False
     co_code = frame.f_code.co_code
     lasti = frame.f_lasti
-    return (
-        0 <= lasti < len(co_code) - 1
-        and co_code[lasti] == RESUME_OPCODE
-        and (co_code[lasti + 1] & 3) != 0
-    )
+    if not 0 <= lasti < len(co_code) - 1:
+        return False
+    if co_code[lasti] == RESUME_OPCODE:
+        return (co_code[lasti + 1] & 3) != 0
+    return bool(co_code[lasti] == YIELD_VALUE_OPCODE)
 
 
 EVENT_CALL = "call"
